@@ -917,7 +917,7 @@ class Bag(DaskMethodsMixin):
         if initial is not no_default:
             return self.reduction(
                 curry(_reduce, binop, initial=initial),
-                curry(_reduce, combine),
+                curry(_reduce_partials, combine, initial=initial),
                 split_every=split_every,
                 out_type=out_type,
             )
@@ -2374,6 +2374,16 @@ def _reduce(binop, sequence, initial=no_default):
         return reduce(binop, sequence, initial)
     else:
         return reduce(binop, sequence)
+
+
+def _reduce_partials(combine, sequence, initial):
+    # ``reduction`` skips the partial results of empty partitions.  If every
+    # partition is empty there is nothing to combine and the result is
+    # ``initial``, as for ``functools.reduce(binop, [], initial)``
+    sequence = list(sequence)
+    if not sequence:
+        return initial
+    return reduce(combine, sequence)
 
 
 def make_group(k, stage):
